@@ -185,6 +185,12 @@ def int_method(ip, st, fr, t, args):
     Mx = bv.M
     a = args[0]
     b = args[1] if len(args) > 1 else None
+    if name in ("from_be_bytes", "from_le_bytes") and isinstance(a, Agg) and all(isinstance(e, Int) and len(e.bits) == 8 for e in a.fields):
+        parts = list(a.fields) if name == "from_le_bytes" else list(reversed(a.fields))
+        bits = ()
+        for e in parts:
+            bits = bits + tuple(e.bits)
+        return Int(bits)
     if not isinstance(a, Int) or (b is not None and not isinstance(b, Int)):
         return ip.opaque_of_type(t["dest"]["ty"], "int:" + name)
     x = a.bits
